@@ -38,7 +38,8 @@ class Path:
     def fork(self):
         p = Path(self.env, self.pc)
         p.status, p.ret, p.exc = self.status, self.ret, self.exc
-        p.ghost = {k: (list(v) if isinstance(v, list) else dict(v) if isinstance(v, dict) else v) for k, v in self.ghost.items()}
+        p.ghost = {k: (list(v) if isinstance(v, list) else dict(v) if isinstance(v, dict) else set(v) if isinstance(v, set) else v)
+                   for k, v in self.ghost.items()}
         return p
 
     def child(self):
@@ -64,7 +65,7 @@ class Contract:
 
     def __init__(self, qual, prop, params=None, requires=(), ensures=None, invariants=None, defs=None, cases=None,
                  result=None, cover=(), raises=None, ghost_pre=None, notes="", modifies=None, exc_ensures=None,
-                 assumes=()):
+                 assumes=(), body_ensures=None):
         self.qual = qual
         self.prop = prop
         self.params = params or {}          # name -> builder(ctx, path, name) or type string
@@ -81,6 +82,7 @@ class Contract:
         self.modifies = modifies
         self.exc_ensures = dict(exc_ensures or {})  # label -> expr that must hold on every *raising* path
         self.assumes = list(assumes)
+        self.body_ensures = body_ensures or {}   # loop ordinal -> {label: clause that holds at the end of every iteration}
 
     @property
     def short(self):
@@ -517,6 +519,8 @@ def val_eq(a, b):
     if (is_z3(a) or isinstance(a, (int, float, bool, Fraction))) and (is_z3(b) or isinstance(b, (int, float, bool, Fraction))):
         if not is_z3(a) and not is_z3(b):
             return a == b
+        if is_z3(a) and is_z3(b) and a.eq(b):
+            return True
         if is_bool(a) and is_bool(b):
             return to_z3(a) == to_z3(b)
         want = "real" if (is_real(a) or is_real(b)) else None
@@ -1093,6 +1097,26 @@ class Executor:
                 raise Unsupported("a fact created under a quantifier depends on the bound variable")
         return q_forall(vs, b_and(*guards), body) if universal else q_exists(vs, b_and(*guards), body)
 
+    def sum_expr(self, gen, path):
+        """sum(E(n) for n in range(N))  (nested generators: iterated sums, first generator outermost)"""
+        def build(gi, p):
+            g = gen.generators[gi]
+            it = self.ev(g.iter, p)
+            if not (isinstance(it, Obj) and it.cls == "range" and not g.ifs and isinstance(g.target, ast.Name)):
+                raise Unsupported("sum(...) over something other than range(N)")
+            lo, hi = it.fields["lo"], it.fields["hi"]
+            if not (isinstance(lo, int) and lo == 0):
+                raise Unsupported("sum over a range that does not start at 0")
+
+            def body(nv, gi=gi, p=p, g=g):
+                p2 = p.child()
+                p2.env[g.target.id] = nv
+                if gi + 1 < len(gen.generators):
+                    return build(gi + 1, p2)
+                return self.ev(gen.elt, p2)
+            return make_sum(body, hi, path)
+        return build(0, path)
+
     # ---- calls -------------------------------------------------------------------------
     def ev_Call(self, node, path):
         # spec / builtin quantifiers
@@ -1100,9 +1124,15 @@ class Executor:
             nm = node.func.id
             if nm in ("all", "any") and nm not in path.env:
                 return self.quantified(node, path, nm == "all")
+            if nm == "sum" and nm not in path.env and len(node.args) == 1 and isinstance(node.args[0], ast.GeneratorExp):
+                return self.sum_expr(node.args[0], path)
             if nm == "old" and self.spec_mode:
                 p2 = path.child()
                 p2.env = dict(self.old_env)
+                return self.ev(node.args[0], p2)
+            if nm == "head" and self.spec_mode and getattr(self, "head_env", None) is not None:
+                p2 = path.child()
+                p2.env = dict(self.head_env)
                 return self.ev(node.args[0], p2)
             if nm == "implies" and self.spec_mode:
                 a0 = truth(self.ev(node.args[0], path))
@@ -1256,11 +1286,22 @@ class Executor:
             raise Unsupported(f"contract of {c.qual} has no result builder")
         n_ev = len(path.ghost.get("rng_trace", []))
         res = c.result(self, path, bound, node)
+        if getattr(c, "out_params", None) or getattr(c, "returns_self", False):
+            res, outs = res
+            for pn, newv in outs.items():
+                if pn in names and names.index(pn) < len(getattr(node, "args", [])):
+                    self.assign(node.args[names.index(pn)], newv, path)
+                elif pn == names[0] and isinstance(getattr(node, "func", None), ast.Attribute):
+                    self.assign(node.func.value, newv, path)      # the receiver of a method call
+                else:
+                    raise Unsupported(f"cannot write back out-parameter {pn} of {c.qual}")
+                bound[pn] = newv
         p2.env["result"] = res
         p2.pc = path.pc
         # the callee's postcondition speaks about the draws made *during the call* only
         p2.ghost = dict(path.ghost)
         p2.ghost["rng_trace"] = list(path.ghost.get("rng_trace", []))[n_ev:]
+        p2.env.update({k_: v_ for k_, v_ in bound.items()})
         for label, e in c.ensures.items():
             fact = sub.spec(e, p2)
             if fact is False:
@@ -1579,9 +1620,19 @@ class Executor:
         return [path]
 
     # ---- loops ------------------------------------------------------------------------
+    def _loop_ordinal(self, s):
+        """loops are numbered by source position inside the function (1-based), so a contract's invariant table does not
+        depend on the order in which paths are explored"""
+        tbl = getattr(self, "_ordinals", None)
+        if tbl is None:
+            fors = [n for n in ast.walk(self.fnsrc.node) if isinstance(n, ast.For)] if self.fnsrc is not None else []
+            fors.sort(key=lambda n: (n.lineno, n.col_offset))
+            tbl = self._ordinals = {(n.lineno, n.col_offset): k + 1 for k, n in enumerate(fors)}
+        return tbl.get((s.lineno, getattr(s, "col_offset", 0)), 0)
+
     def st_For(self, s, path):
         self.loop_counter += 1
-        ordinal = self.loop_counter
+        ordinal = self._loop_ordinal(s) or self.loop_counter
         it = self.ev(s.iter, path)
         items = self.iter_concrete(it)
         if items is not None and ordinal in self.contract.invariants:
@@ -1626,6 +1677,9 @@ class Executor:
              for i in range(len(X)): X[i] = E(X[i], i, <loop-invariant names>)          (in-place map)
              for x in SEQ: Y.append(E(x, <loop-invariant names>))   with Y == [] before   (map into a new list)
         Returns the list of resulting paths or None when the loop is not of that shape."""
+        r_ = self.array_loop_summary(s, path, it)
+        if r_ is not None:
+            return r_
         if s.orelse or len(s.body) != 1:
             return None
         st = s.body[0]
@@ -1691,6 +1745,112 @@ class Executor:
             return [path]
         return None
 
+    def array_loop_summary(self, s, path, it):
+        """exact summaries of the kernel's two loop shapes (no invariant needed):
+           (map)         for i in range(a, N): [for j in range(b, M):]  X[<loop vars>] (= | += | -=) E     E does not read X
+           (accumulate)  for n in range(N): [for m in range(M):]  T (+= | -=) E(n[, m])       T's indices do not use n, m; E does not read T's array
+        """
+        nest, cur = [], s
+        while True:
+            if cur.orelse or not isinstance(cur.target, ast.Name):
+                return None
+            itv = it if cur is s else self.ev(cur.iter, path)
+            if not (isinstance(itv, Obj) and itv.cls == "range"):
+                return None
+            nest.append((cur.target.id, itv.fields["lo"], itv.fields["hi"]))
+            if len(cur.body) != 1:
+                return None
+            inner = cur.body[0]
+            if isinstance(inner, ast.For):
+                # inner range bounds must not depend on outer loop variables
+                if any(isinstance(n_, ast.Name) and n_.id in [v for v, _, _ in nest] for n_ in ast.walk(inner.iter)):
+                    return None
+                cur = inner
+                continue
+            st = inner
+            break
+        if len(nest) > 2:
+            return None
+        lvars = [v for v, _, _ in nest]
+        if isinstance(st, ast.Assign) and len(st.targets) == 1:
+            tgt, op, rhs = st.targets[0], None, st.value
+        elif isinstance(st, ast.AugAssign) and isinstance(st.op, (ast.Add, ast.Sub)):
+            tgt, op, rhs = st.target, st.op, st.value
+        else:
+            return None
+        # root array / scalar of the target
+        root = tgt
+        while isinstance(root, (ast.Subscript,)):
+            root = root.value
+        root_src = ast.unparse(root)
+        idx_nodes = []
+        if isinstance(tgt, ast.Subscript):
+            if ast.unparse(tgt.value) != root_src:
+                return None
+            sl = tgt.slice
+            idx_nodes = list(sl.elts) if isinstance(sl, ast.Tuple) else [sl]
+        uses_lv = [[n_.id for n_ in ast.walk(ix) if isinstance(n_, ast.Name) and n_.id in lvars] for ix in idx_nodes]
+        rhs_reads_root = any(ast.unparse(n_) == root_src for n_ in ast.walk(rhs) if isinstance(n_, (ast.Attribute, ast.Name)))
+        if rhs_reads_root:
+            return None
+        base_env = dict(path.env)
+        ex = self
+        cur_val = self.ev(_as_load(root), path)
+
+        def ev_with(bind, node):
+            p2 = path.child()
+            p2.env = dict(base_env)
+            p2.env.update(bind)
+            return ex.ev(node, p2)
+        # ---- map / elementwise update: every loop variable of the nest is one index position (each once); the remaining
+        #      index positions are expressions that do not depend on the nest's variables (a fixed row / column)
+        lv_positions = [ix.id for ix in idx_nodes if isinstance(ix, ast.Name) and ix.id in lvars]
+        other_ok = all((isinstance(ix, ast.Name) and ix.id in lvars) or not u_ for ix, u_ in zip(idx_nodes, uses_lv))
+        if idx_nodes and other_ok and sorted(lv_positions) == sorted(lvars) and isinstance(cur_val, Arr) and cur_val.ndim == len(idx_nodes):
+            old = cur_val
+            fixed = {d: ev_with({}, ix) for d, ix in enumerate(idx_nodes) if not (isinstance(ix, ast.Name) and ix.id in lvars)}
+
+            def at(*k, old=old, nest=nest, op=op, rhs=rhs, fixed=fixed):
+                kz = [to_z3(x) for x in k]
+                bind, conds = {}, []
+                for d, ix in enumerate(idx_nodes):
+                    if d in fixed:
+                        conds.append(kz[d] == to_z3(fixed[d]))
+                    else:
+                        v, lo_, hi_ = nest[lvars.index(ix.id)]
+                        bind[v] = kz[d]
+                        conds.append(z3.And(kz[d] >= to_z3(lo_), kz[d] < to_z3(hi_)))
+                e = ev_with(bind, rhs)
+                want = "real" if old.dtype == "real" else None
+                e = to_z3(e, want)
+                if op is not None:
+                    e = old.at(*k) + e if isinstance(op, ast.Add) else old.at(*k) - e
+                return z3.If(z3.And(*conds), e, old.at(*k))
+            new = Arr(old.shape, at, old.dtype, old.name)
+            new.facts = list(getattr(old, "facts", []))
+            self.assign(root, new, path)
+            for v, _, _ in nest:
+                path.env[v] = fresh_int(v)
+            return [path]
+        # ---- accumulation: target cell does not depend on the loop variables
+        if op is not None and not any(uses_lv) and (not idx_nodes or isinstance(cur_val, Arr)):
+            def term(*nv, nest=nest, rhs=rhs):
+                return to_z3(ev_with({v: x for (v, _, _), x in zip(nest, nv)}, rhs), "real")
+            for v, lo_, _ in nest:
+                if not (isinstance(lo_, int) and lo_ == 0):
+                    return None
+            if len(nest) == 1:
+                total = make_sum(lambda n_: term(n_), nest[0][2], path)
+            else:
+                total = make_sum(lambda n_: make_sum(lambda m_: term(n_, m_), nest[1][2], path), nest[0][2], path)
+            tload = self.ev(_as_load(tgt), path)
+            newv = arith(op, tload, total, None, None, s.lineno)
+            self.assign(tgt, newv, path)
+            for v, _, _ in nest:
+                path.env[v] = fresh_int(v)
+            return [path]
+        return None
+
     def loop_iter_model(self, it):
         """-> (lo, hi, elem(k)) : the loop runs k = lo .. hi-1 and binds target to elem(k)"""
         if isinstance(it, Obj) and it.cls == "range":
@@ -1706,6 +1866,7 @@ class Executor:
         ctx = self.ctx
         lo, hi, elem = self.loop_iter_model(it)
         modified = sorted(assigned_names(s.body) | assigned_names([ast.Assign(targets=[s.target], value=ast.Constant(0))]))
+        written = self.written_attrs(s.body)
         itname = "_it"
         tag = f"loop{ordinal}"
 
@@ -1753,7 +1914,7 @@ class Executor:
                 tmpl = shapes.get(m, pre_env.get(m))
                 if m in pre_env and _is_scalar(pre_env[m]) and _is_scalar(tmpl):
                     tmpl = _widen(pre_env[m], tmpl)
-                h.env[m] = havoc_like(tmpl, m, pre_env)
+                h.env[m] = havoc_like(tmpl, m, pre_env, written.get(m))
             if body_gens:
                 # draws made by earlier iterations: unknown in number; they came from the same call sites as this
                 # iteration's draws, so their generator is the one the dry run saw
@@ -1771,12 +1932,22 @@ class Executor:
         self.assign(s.target, elem(k), h)
         results = []
         lc = self.loop_counter
+        head_env = dict(h.env)
         body_out = self.exec_block(s.body, [h])
         self.loop_counter = lc
+        body_ens = getattr(self.contract, "body_ensures", {}).get(ordinal, {})
         for q in body_out:
             if q.status in ("run", "continue"):
                 for label, e in inv.items():
                     ctx.vc(f"{tag}/preserve/{label}", q, inv_at(q, k + 1, e), "invariant", s.lineno, note=e)
+                # per-iteration contract: proved for an arbitrary iteration started from an arbitrary (havocked) loop state
+                saved_head = getattr(self, "head_env", None)
+                self.head_env = head_env
+                try:
+                    for label, e in body_ens.items():
+                        ctx.vc(f"{tag}/iteration/{label}", q, self.spec(e, q, {itname: k}), "iteration", s.lineno, note=e)
+                finally:
+                    self.head_env = saved_head
             elif q.status == "break":
                 q.status = "run"
                 results.append(q)
@@ -1793,6 +1964,61 @@ class Executor:
         else:
             results.append(x)
         return results
+
+    def written_attrs(self, stmts):
+        """name -> set of first-level attributes of that object assigned in stmts ('*' = unknown): direct stores,
+        by-reference (&obj.attr...) arguments, out-parameters and `modifies` lists of callees under contract"""
+        out = {}
+
+        def chain(t):
+            attrs = []
+            while isinstance(t, (ast.Attribute, ast.Subscript)):
+                if isinstance(t, ast.Attribute):
+                    attrs.append(t.attr)
+                t = t.value
+            return (t.id if isinstance(t, ast.Name) else None), list(reversed(attrs))
+
+        def note(t):
+            root, attrs = chain(t)
+            if root is None:
+                return
+            out.setdefault(root, set()).add(attrs[0] if attrs else "*")
+        for st in stmts:
+            for n in ast.walk(st):
+                if isinstance(n, ast.Assign):
+                    for t in n.targets:
+                        for e in (t.elts if isinstance(t, (ast.Tuple, ast.List)) else [t]):
+                            if isinstance(e, (ast.Attribute, ast.Subscript)):
+                                note(e)
+                elif isinstance(n, (ast.AugAssign, ast.AnnAssign)) and isinstance(n.target, (ast.Attribute, ast.Subscript)):
+                    note(n.target)
+                elif isinstance(n, ast.Call):
+                    for a in n.args:
+                        if isinstance(a, ast.UnaryOp) and isinstance(a.op, ast.Invert):
+                            note(a.operand)
+                    # callee under contract: out-params and modifies
+                    c = None
+                    if isinstance(n.func, ast.Attribute) and isinstance(n.func.value, ast.Name):
+                        for key, cc in self.ctx.contracts.items():
+                            if key.endswith("." + n.func.attr) and getattr(cc, "modifies", None) is not None:
+                                c = cc
+                                break
+                        if c is not None:
+                            out.setdefault(n.func.value.id, set()).update(c.modifies)
+                    elif isinstance(n.func, ast.Name):
+                        q = self.resolve_repo(n.func.id)
+                        cc = self.ctx.contracts.get(q)
+                        if cc is not None and getattr(cc, "out_params", None):
+                            from .extract import locate
+                            names = [a.arg for a in locate(cc.qual).node.args.args]
+                            for pn in cc.out_params:
+                                k = names.index(pn)
+                                if k < len(n.args):
+                                    note(n.args[k])
+                elif isinstance(n, ast.Expr) and isinstance(n.value, ast.Call) and isinstance(n.value.func, ast.Attribute) \
+                        and n.value.func.attr in ("append", "extend", "update", "setdefault", "pop"):
+                    note(n.value.func.value)
+        return out
 
     def _target_env(self, target, elem, k, p):
         tmp = Path()
@@ -1874,8 +2100,8 @@ def assigned_names(stmts):
     return out
 
 
-def havoc_like(tmpl, name, pre_env):
-    """fresh value with the shape of tmpl (loop havoc)."""
+def havoc_like(tmpl, name, pre_env, written=None):
+    """fresh value with the shape of tmpl (loop havoc).  For objects only the attributes in `written` change."""
     stable = [v for v in pre_env.values()]
     if isinstance(tmpl, bool) or (is_z3(tmpl) and tmpl.sort() == z3.BoolSort()):
         return fresh_bool(name)
@@ -1927,8 +2153,17 @@ def havoc_like(tmpl, name, pre_env):
             a.facts = [d >= 0 for d in shape]
         return a
     if isinstance(tmpl, Obj):
-        return Obj(tmpl.cls, {k: (havoc_like(v, f"{name}.{k}", pre_env) if k in getattr(tmpl, "mutable_fields", ()) else v)
-                              for k, v in tmpl.fields.items()}, tmpl.ident)
+        mut = set(getattr(tmpl, "mutable_fields", ()))
+        if written is not None:
+            if "*" not in written:
+                mut = set(written)
+        o = Obj(tmpl.cls, {k: (havoc_like(v, f"{name}.{k}", pre_env) if k in mut and not callable(v) else v)
+                           for k, v in tmpl.fields.items()}, tmpl.ident)
+        o.mutable_fields = getattr(tmpl, "mutable_fields", ())
+        for extra in ("type_pred", "bases"):
+            if hasattr(tmpl, extra):
+                setattr(o, extra, getattr(tmpl, extra))
+        return o
     if isinstance(tmpl, Opaque):
         return Opaque(tmpl.tag)
     if tmpl is None or isinstance(tmpl, (str, NameRef)):
@@ -1948,6 +2183,70 @@ def _mentions(term, var):
             return True
         stack.extend(t.children())
     return False
+
+
+_SUM_FUNCS = {}
+_SUM_DEPTH = [0]
+
+
+def _int_consts(e, skip):
+    """free 0-ary Int constants of e in first-occurrence (DFS, left to right) order"""
+    out, seen, stack = [], set(), [e]
+    order = []
+    def walk(t):
+        if t.get_id() in seen:
+            return
+        seen.add(t.get_id())
+        if z3.is_const(t) and t.decl().kind() == z3.Z3_OP_UNINTERPRETED and t.sort() == z3.IntSort():
+            if not any(t.eq(x) for x in skip):
+                order.append(t)
+            return
+        if z3.is_quantifier(t):
+            walk(t.body())
+            return
+        for ch in t.children():
+            walk(ch)
+    walk(e)
+    return order
+
+
+def make_sum(body_fn, upto, path, tag="Sum"):
+    """Sum(body, upto) = body(0) + ... + body(upto-1) as an application of a function S defined by
+         S(p.., 0) = 0,   S(p.., n+1) = S(p.., n) + body(p.., n)   (n >= 0)
+    p.. are the integer constants occurring in the body (loop variables, bound variables, sizes): abstracting them makes
+    the same source expression summed in the code and in a contract denote the same function."""
+    # one placeholder per nesting depth (an inner sum is built while the outer body is being evaluated)
+    depth = _SUM_DEPTH[0]
+    place = z3.Int(f"sum__n{depth}")
+    _SUM_DEPTH[0] += 1
+    try:
+        body0 = to_z3(body_fn(place), "real")
+    finally:
+        _SUM_DEPTH[0] -= 1
+    _SUM_PLACE = place
+    params = _int_consts(body0, [_SUM_PLACE])
+    places = [z3.Int(f"sum__p{k}") for k in range(len(params))]
+    canon = z3.Int("sum__n")           # the summation index in the generic (depth-independent) form
+    generic = z3.substitute(body0, *([(p_, q_) for p_, q_ in zip(params, places)] + [(_SUM_PLACE, canon)]))
+    _SUM_PLACE = canon
+    key = generic.sexpr()
+    if key not in _SUM_FUNCS:
+        S = z3.Function(f"{tag}!{len(_SUM_FUNCS)}", *([z3.IntSort()] * (len(params) + 1) + [z3.RealSort()]))
+        n = z3.Int("n!sum")
+        ax = [S(*(places + [z3.IntVal(0)])) == 0,
+              z3.Implies(n >= 0, S(*(places + [n + 1])) == S(*(places + [n])) + z3.substitute(generic, (_SUM_PLACE, n)))]
+        if places:
+            ax = [z3.ForAll(places, ax[0], patterns=[S(*(places + [z3.IntVal(0)]))]),
+                  z3.ForAll(places + [n], ax[1], patterns=[S(*(places + [n + 1]))])]
+        else:
+            ax = [ax[0], z3.ForAll([n], ax[1], patterns=[S(n + 1)])]
+        _SUM_FUNCS[key] = (S, ax)
+    S, ax = _SUM_FUNCS[key]
+    done = path.ghost.setdefault("sum_axioms", set())
+    if key not in done:
+        done.add(key)
+        path.assume(*ax)
+    return S(*(params + [to_z3(upto)]))
 
 
 def arr_store(a, idx, value):
